@@ -2,6 +2,7 @@ import WM.Proto
 import WM.Spec.Codec
 import WM.Spec.CodecIndex
 import WM.Model.CodecBytes
+import WM.Model.CodecMulti
 namespace WM.Drv.C10
 open WM.Proto WM.Codec
 
@@ -32,6 +33,31 @@ def docWire : Wire Int (List Int) :=
 def termWire : Wire String (List String) :=
   { kind := termIds, parseId := fun e => e.atom? >>= hexToString?, showId := stringToHex
     showMini := showList stringToHex }
+
+def parseMP : SExp → Option MP
+  | .list [i, w, l] => do
+    let i ← i.int?
+    let w ← w.rat?
+    let l ← l.nat?
+    pure { id := i, weight := w, length := l }
+  | _ => none
+
+def parseTiOff : SExp → Option (TiStats × Int)
+  | .list [w, df, mnl, mxl, mw, mnid, mxid, off] => do
+    let w ← w.rat?
+    let df ← df.nat?
+    let mnl ← mnl.nat?
+    let mxl ← mxl.nat?
+    let mw ← mw.rat?
+    let mnid ← mnid.int?
+    let mxid ← mxid.int?
+    let off ← off.int?
+    pure ({ weight := w, df := df, minlength := mnl, maxlength := mxl, maxweight := mw, minid := mnid,
+            maxid := mxid }, off)
+  | _ => none
+
+def showStats (t : TiStats) : String :=
+  s!"({showRat t.weight} {t.df} {t.minlength} {t.maxlength} {showRat t.maxweight} {t.minid} {t.maxid})"
 
 variable {ι μ : Type}
 
@@ -314,6 +340,18 @@ def handle : List SExp → String
           s!"({showRat (tiReadWeight unpackF bs)} {tiReadDocFreq bs} {showOpt toString mm.1} {showOpt toString mm.2} " ++
           s!"{showRat (tiReadMaxWeight unpackF bs)})"
     | _, _, _, _, _, _, _, _ => "bad-op"
+  | [.atom "agg", .list ps] =>
+    -- Layer S: aggregates of a posting list `((id weight length) …)`
+    match ps.mapM parseMP with
+    | some ps => if ps.isEmpty then "none" else showStats (aggStats ps)
+    | none => "bad-op"
+  | [.atom "combine", .list tis] =>
+    -- `reading.combine_terminfos([(terminfo, offset) …])`, each item `(w df mnl mxl mw mnid mxid offset)`
+    match tis.mapM parseTiOff with
+    | some tis => match combineTerminfos tis with
+      | some t => showStats t
+      | none => "none"
+    | none => "bad-op"
   | [.atom "l2b", n] =>
     match SExp.opt? SExp.nat? n with
     | some l => toString (lengthToByte l)
